@@ -80,11 +80,12 @@ pub fn handle(op: &str, cmd: &Value) -> Value {
         }
         "table_step" => table_step(cmd),
         "corpus_native" => {
-            let r = match cmd["tag"].as_str().unwrap_or("") { "c03" => crate::c03_gen::native_all(cmd["rounds"].as_u64().unwrap_or(300) as usize, cmd["seed"].as_u64().unwrap_or(1)), _ => vec![] };
+            let r = match cmd["tag"].as_str().unwrap_or("") { "c03" => crate::c03_gen::native_all(cmd["rounds"].as_u64().unwrap_or(300) as usize, cmd["seed"].as_u64().unwrap_or(1)),
+                "c04" => crate::c04_gen::native_all(cmd["rounds"].as_u64().unwrap_or(300) as usize, cmd["seed"].as_u64().unwrap_or(1)), _ => vec![] };
             json!({"failed": r.iter().filter(|x| x.1 > 0).map(|x| json!({"harness": x.0, "bad": x.1})).collect::<Vec<_>>(), "roots": r.len()})
         }
         "dump_corpus" => {
-            let roots = match cmd["tag"].as_str().unwrap_or("") { "c03" => crate::corpus_c03::roots(), _ => vec![] };
+            let roots = match cmd["tag"].as_str().unwrap_or("") { "c03" => crate::corpus_c03::roots(), "c04" => { let mut r = crate::corpus_c04::roots(); r.extend(crate::corpus_c04::shape_roots()); r } _ => vec![] };
             let mut m = serde_json::Map::new();
             for (name, mt) in roots {
                 let mut reg = scale_info::Registry::new();
